@@ -37,6 +37,40 @@ type simProvider struct {
 	shutdowns int
 	closes    int
 	served    []string
+	// nested: the served configuration holds a reference to a value of the second provider (${simv:...})
+	nested bool
+	// servedBad: the most recent Retrieve served something that cannot be brought up (error, invalid configuration)
+	servedBad bool
+}
+
+// valProvider (scheme "simv") serves one scalar that the main configuration refers to: every resolution then has a
+// second retrieved value with its own watcher and closer, and a second provider to shut down.
+type valProvider struct {
+	mu        sync.Mutex
+	retrieves int
+	shutdowns int
+	closes    int
+}
+
+func (p *valProvider) Scheme() string { return "simv" }
+
+func (p *valProvider) Shutdown(context.Context) error {
+	p.mu.Lock()
+	p.shutdowns++
+	p.mu.Unlock()
+	return nil
+}
+
+func (p *valProvider) Retrieve(_ context.Context, _ string, _ confmap.WatcherFunc) (*confmap.Retrieved, error) {
+	p.mu.Lock()
+	p.retrieves++
+	p.mu.Unlock()
+	return confmap.NewRetrieved("none", confmap.WithRetrievedClose(func(context.Context) error {
+		p.mu.Lock()
+		p.closes++
+		p.mu.Unlock()
+		return nil
+	}))
 }
 
 func (p *simProvider) Scheme() string { return "sim" }
@@ -59,10 +93,14 @@ func (p *simProvider) Retrieve(_ context.Context, _ string, watcher confmap.Watc
 	gen := p.w.Gen
 	p.w.mu.Unlock()
 	p.w.emit("provider-retrieve", "provider", gen, "")
+	p.servedBad = p.nextErr != nil || p.corrupt
 	if p.nextErr != nil {
 		return nil, p.nextErr
 	}
 	m := p.next.confMap()
+	if p.nested {
+		m["service"].(map[string]any)["telemetry"].(map[string]any)["metrics"].(map[string]any)["level"] = "${simv:level}"
+	}
 	if p.corrupt {
 		// a pipeline that references an exporter which is not defined
 		svc := m["service"].(map[string]any)
@@ -142,6 +180,7 @@ type c20Sim struct {
 	r               *simkit.Run
 	w               *World
 	prov            *simProvider
+	vprov           *valProvider
 	col             *otelcol.Collector
 	cancel          context.CancelFunc
 	run             *simkit.Task
@@ -175,12 +214,13 @@ func runC20(r *simkit.Run) {
 		t := topo{Pipes: []pipeCfg{{Name: "logs/a", Sig: sigLogs, Recv: []string{"rcv/1"}, Exp: []string{"exp/1"}}}}
 		return &t
 	}
-	prov := &simProvider{w: w, next: genValid()}
-	s := &c20Sim{r: r, w: w, prov: prov}
+	prov := &simProvider{w: w, next: genValid(), nested: tp.Chance(1, 2)}
+	vprov := &valProvider{}
+	s := &c20Sim{r: r, w: w, prov: prov, vprov: vprov}
 	steps := tp.Range(3, 18)
 	// plans: which components park or fail (applies to every generation)
 	parkish := tp.Chance(1, 2)
-	r.Sample = map[string]any{"initial": prov.next, "steps": steps, "parking_components": parkish}
+	r.Sample = map[string]any{"initial": prov.next, "steps": steps, "parking_components": parkish, "nested_provider_reference": prov.nested}
 	if parkish {
 		for _, k := range compKeysOf(prov.next) {
 			if tp.Chance(1, 4) {
@@ -214,8 +254,9 @@ func runC20(r *simkit.Run) {
 		BuildInfo: component.NewDefaultBuildInfo(),
 		Factories: factories,
 		ConfigProviderSettings: otelcol.ConfigProviderSettings{ResolverSettings: confmap.ResolverSettings{
-			URIs:              []string{"sim:cfg"},
-			ProviderFactories: []confmap.ProviderFactory{confmap.NewProviderFactory(func(confmap.ProviderSettings) confmap.Provider { return prov })},
+			URIs: []string{"sim:cfg"},
+			ProviderFactories: []confmap.ProviderFactory{confmap.NewProviderFactory(func(confmap.ProviderSettings) confmap.Provider { return prov }),
+				confmap.NewProviderFactory(func(confmap.ProviderSettings) confmap.Provider { return vprov })},
 		}},
 		SkipSettingGRPCLogger: true,
 		LoggingOptions:        nopLogging(),
@@ -586,6 +627,25 @@ func (s *c20Sim) finalChecks() {
 		s.prov.mu.Unlock()
 		if sh != 1 {
 			r.Failf("provider", fmt.Sprintf("shut-down-%d-times", sh), "the configuration provider was shut down %d times", sh)
+		}
+		s.vprov.mu.Lock()
+		vsh := s.vprov.shutdowns
+		s.vprov.mu.Unlock()
+		if vsh != 1 {
+			r.Failf("provider", fmt.Sprintf("second-provider-shut-down-%d-times", vsh), "the second configuration provider (scheme simv) was shut down %d times", vsh)
+		}
+	}
+	// a reload may only fail for a reason: the provider could not serve, served something invalid, or a component of
+	// the new configuration was planned to fail in Start
+	if reloadFailed && !s.initialFails {
+		s.prov.mu.Lock()
+		bad := s.prov.servedBad
+		s.prov.mu.Unlock()
+		s.w.mu.Lock()
+		planned := s.w.failStartAt[s.w.Gen] != ""
+		s.w.mu.Unlock()
+		if !bad && !planned {
+			r.Failf("reload", "failed-without-cause", "Run returned %v although the provider served a valid configuration and no component was planned to fail", runErr)
 		}
 	}
 	if s.initialFails && runErr == nil {
